@@ -3,10 +3,11 @@ CHECK_DEADLOCK FALSE
 CONSTANTS
  Buckets = {"u", "u2"}
  Names <- SimNames
- Datas = {"d0", "d1", "d2", "d3"}
+ Datas = {"d0", "d1", "d2", "d3", "d4", "d5", "d6"}
  Prefixes <- SimPrefixes
  MaxOps = 0
  Styles = {"write", "nowrite", "copy"}
  EmptyData = "d0"
  CopyOn = TRUE
  CopyMiss <- SimMiss
+ Handles = {1, 2}
